@@ -1,6 +1,6 @@
 SPECIFICATION GenSpec
 CONSTANTS
-  Chains <- RewindChains
+  Chains <- RewindAndFracChains
   RowVals <- RowsABC
   MaxRows = 3
   MaxEmpty = 1
